@@ -149,6 +149,17 @@ impl Controller {
 /// single dot and a line that reads like a command
 pub const MESSAGE_TAIL: &str = ".\r\nRSET\r\n";
 
+/// the whole tail of a message: `MESSAGE_TAIL`, then filler such that (for one-digit sender and message numbers) octet 8191
+/// of the message is a CR, octet 8192 the LF and octet 8193 a dot — a line start right behind the 8 KiB mark —, then a line
+/// that reads like a command and is not terminated (the message ends in the middle of a line, so that a codec that is not
+/// reset between two messages shows on the next one)
+pub fn message_tail() -> String {
+    let mut t = String::from(MESSAGE_TAIL);
+    t.push_str(&"x".repeat(8191 - 17));
+    t.push_str("\r\n.QUIT");
+    t
+}
+
 /// the client's read timeout in runs with a slow NOOP
 pub const SLOW_CLIENT_TIMEOUT_MS: u64 = 300;
 
@@ -269,7 +280,7 @@ fn serve_conn(s: std::net::TcpStream, fault: Fault, cid: usize, log: ServerLog) 
                 // command (`CR CR LF . CR LF RSET`), and the CRLF the client puts before the final dot; anything else has been altered in
                 // transit
                 match content.split_once('\n') {
-                    Some((first, rest)) if rest.strip_suffix("\r\n") == Some(MESSAGE_TAIL) => push(format!("C{}", first.trim())),
+                    Some((first, rest)) if rest.strip_suffix("\r\n") == Some(message_tail().as_str()) => push(format!("C{}", first.trim())),
                     Some((first, _)) => push(format!("Cbad:{}", first.trim())),
                     None => push(format!("Cbad:{}", content.trim())),
                 }
@@ -570,7 +581,7 @@ fn run_sync(ctl: &Arc<Controller>, plan: &Plan, port: u16) -> Option<(String, St
                 .spawn(move || {
                     for k in 0..sends {
                         let env = Envelope::new(Some(format!("s{i}@example.org").parse().unwrap()), vec!["to@example.org".parse().unwrap()]).unwrap();
-                        let r = t.send_raw(&env, format!(".s{i}.{k}\r\r\n{MESSAGE_TAIL}").as_bytes());
+                        let r = t.send_raw(&env, format!(".s{i}.{k}\r\r\n{}", message_tail()).as_bytes());
                         results.lock().unwrap().entry(n2.clone()).or_default().push(describe(&r));
                     }
                     drop(t);
